@@ -85,6 +85,9 @@ Definition shape_step (sh : shape) (o : op) : shape :=
   | OAddSeparator => mkShape (sh_rows sh ++ [mkSrow None true]) (sh_order sh ++ [id]) (sh_header sh) (sh_ncols sh)
   | OAddHeaders n => mkShape (sh_rows sh ++ [mkSrow (Some n) true]) (sh_order sh) (Some id) (Nat.max (sh_ncols sh) n)
   | ORegister _ _ _ _ => sh
+  (* the row becomes a row of another table as well; this table - its rows,
+     their order, its header, its columns - is what it was *)
+  | OOtherAddRow _ => sh
   end.
 
 (* ---- which histories the property quantifies over *)
@@ -109,6 +112,9 @@ Definition op_wf (sh : shape) (o : op) : bool :=
   | ORowAdd r => r <? length (sh_rows sh)
   | OAddRow r => match nth_error (sh_rows sh) r with Some (mkSrow (Some _) false) => true | _ => false end
   | ORegister ow _ _ _ => owner_exists sh ow
+  (* the other table is handed a row with cells, like this table's AddRow; the
+     row may or may not be in this table, before or afterwards *)
+  | OOtherAddRow r => match nth_error (sh_rows sh) r with Some (mkSrow (Some _) _) => true | _ => false end
   | _ => true
   end.
 
@@ -120,6 +126,36 @@ Fixpoint wf_from (sh : shape) (h : list op) : bool :=
 Definition wf_hist (h : list op) : bool := wf_from shape0 h.
 
 Definition final_shape (sh : shape) (h : list op) : shape := fold_left shape_step h sh.
+
+(* ---- a row that another table holds too: what the run-time oracle is asked
+   about (Run/C13Run.v).  A *Row has one table pointer, and two things follow
+   it rather than the table that is being built or rendered: where a cell
+   added to the row afterwards is announced, and which table's column a cell
+   of the row counts as being in.  The property does not say which table those
+   should be once a row is in two, so histories in which it would matter are
+   not judged: once another table has taken a row, the row gets no more cells,
+   and a history with such a row has no column-level cell callbacks for the two
+   render times.  (Theorems quantify over [wf_hist] alone: they describe the
+   model, in which the table at hand always decides.) *)
+Definition is_row_add (r : nat) (o : op) : bool :=
+  match o with ORowAdd r' => r' =? r | _ => false end.
+Definition is_other_add (o : op) : bool :=
+  match o with OOtherAddRow _ => true | _ => false end.
+Definition is_column_render_cell_reg (o : op) : bool :=
+  match o with
+  | ORegister (OColumn _) TPre GCell _ | ORegister (OColumn _) TPost GCell _ => true
+  | _ => false
+  end.
+Fixpoint no_add_after_share (h : list op) : bool :=
+  match h with
+  | [] => true
+  | OOtherAddRow r :: rest => negb (existsb (is_row_add r) rest) && no_add_after_share rest
+  | _ :: rest => no_add_after_share rest
+  end.
+Definition shared_domain (h : list op) : bool :=
+  if existsb is_other_add h
+  then no_add_after_share h && negb (existsb is_column_render_cell_reg h)
+  else true.
 
 Definition regs_step (regs : list reg) (o : op) : list reg :=
   match o with
